@@ -161,7 +161,7 @@ def run_shard(ctx):
     install()
     for m in REC.missing:
         ctx.event("hook_missing:" + m)
-    d = drive.Driver(ctx, feat, flags="random", styles=("mixed", "runs", "tiny", "dups", "multisec"), judge_model=False, extra=monitor,
+    d = drive.Driver(ctx, feat, flags="random", styles=("mixed", "runs", "tiny", "dups", "multisec", "kernel"), judge_model=False, extra=monitor,
                      allow_empty=True)
     d.loop(800, 80000)
     binary_stratum(ctx, d.ws, ctx.share(64, 6000))
